@@ -3,7 +3,7 @@
 PIPEFIX = ["engine/umem_count.c", "engine/pipefix.c", "engine/fake_upump.c", "engine/heapcount.c"]
 QMODS = lib("upipe-modules", only=["upipe_queue_sink.c", "upipe_queue_source.c", "upipe_queue.c", "upipe_transfer.c", "upipe_worker.c"]) + lib("upipe-pthread", only=["upipe_pthread_transfer.c", "uprobe_pthread_upump_mgr.c"])
 ADD = {
-    "C05": [dict(name="queue", harness="harness/C06_queue.c", repo=LIBUPIPE + QMODS, engine=PIPEFIX, cflags=["-DQUEUE_PROP=5"], share=1.0, case_scale=0.5, libs=["-lpthread"])],
+    "C05": [dict(name="queue", harness="harness/C06_queue.c", repo=LIBUPIPE + QMODS, engine=PIPEFIX, cflags=["-DQUEUE_PROP=5"], share=1.0, case_scale=0.3, libs=["-lpthread"])],
 }
 RULE = {
     "C05": "executor 'queue': the histories of C06 (queue sinks with queues of length 1-4 that fill up, source pumps, partial drains by single callbacks of the consumer's loop, flush, release) "
